@@ -179,7 +179,8 @@ func (s *GorumsSender) RequestBlock(ctx context.Context, hash hotstuff.Hash) (*h
 		}
 		return nil, false
 	}
-	return hotstuffpb.BlockFromProto(protoBlock), true
+	block := hotstuffpb.BlockFromProto(protoBlock)
+	return block, block != nil
 }
 
 func (s *GorumsSender) ReplicaExists(id hotstuff.ID) bool {
@@ -266,7 +267,7 @@ func (q qspec) RequestBlockQF(in *hotstuffpb.BlockHash, replies map[uint32]*hots
 	copy(h[:], in.GetHash())
 	for _, b := range replies {
 		block := hotstuffpb.BlockFromProto(b)
-		if h == block.Hash() {
+		if block != nil && h == block.Hash() {
 			return b, true
 		}
 	}
